@@ -59,7 +59,7 @@ ASSUMPTIONS = [
     "BalancedIncrementalQuantileFilter",
 ]
 PROFILE = {
-    "quick": dict(examples=500, shards=16, budget_s=110),
+    "quick": dict(examples=1100, shards=16, budget_s=110),
     "thorough": dict(examples=10000, shards=16, budget_s=1100),
 }
 
